@@ -292,7 +292,7 @@ func CheckC16(env *core.Env, rep *core.Report) *core.Result {
 		for _, f := range formats {
 			lst := results[f]["list"]
 			for _, tn := range c.Built.Tasks {
-				if lst.exit == 0 && !strings.Contains(lst.stdout, "- "+tn) {
+				if lst.exit == 0 && !hasWord(lst.stdout, tn) {
 					add("built-differs-from-model:"+f, fmt.Sprintf("task %s is missing from `list` of the %s file", tn, f), map[string]interface{}{"list": lst.stdout})
 				}
 			}
